@@ -24,17 +24,18 @@ pub fn any_char() -> impl Strategy<Value = char> {
 }
 
 /// Long text built around block sizes: `mult` x `block` bytes (+-3) of ASCII filler in which a few
-/// escape-relevant or multi-byte characters sit within four bytes of a multiple of 64 (so that
+/// escape-relevant or multi-byte characters sit within four bytes of a multiple of min(block, 64) (so that
 /// characters straddle the edges of 64-byte .. 64-KiB blocks and fast paths for long input are taken).
 pub fn long_text() -> BoxedStrategy<String> {
-    let block = prop_oneof![8 => Just(64usize), 3 => Just(128usize), 2 => Just(256usize), 1 => Just(1024usize), 1 => Just(4096usize), 1 => Just(8192usize), 1 => Just(16384usize), 1 => Just(65536usize)];
+    let block = prop_oneof![2 => Just(8usize), 2 => Just(16usize), 3 => Just(32usize), 8 => Just(64usize), 3 => Just(128usize), 2 => Just(256usize), 1 => Just(1024usize), 1 => Just(4096usize), 1 => Just(8192usize), 1 => Just(16384usize), 1 => Just(65536usize)];
     (block, 1usize..=3, -3i64..=3, proptest::collection::vec((any::<u8>(), -4i64..=3, special_char()), 1..6))
         .prop_map(|(block, mult, jitter, specials)| {
             let len = ((block * mult) as i64 + jitter).max(1) as usize;
             let mut bytes: Vec<Option<char>> = vec![None; len];
-            let edges = len / 64 + 1;
+            let grid = block.min(64);
+            let edges = len / grid + 1;
             for (bi, off, ch) in specials {
-                let pos = ((bi as usize % edges) as i64 * 64 + off).clamp(0, len as i64 - 1) as usize;
+                let pos = ((bi as usize % edges) as i64 * grid as i64 + off).clamp(0, len as i64 - 1) as usize;
                 bytes[pos] = Some(ch);
             }
             bytes.into_iter().map(|c| c.unwrap_or('a')).collect::<String>()
